@@ -8,6 +8,8 @@ Pats == << <<1, 1, 1, 1>>,      \* 1: constant envelope, every ratio 1
            <<2, 2, 4, 1>> >>    \* 5: ratios 1, 1, 2, 1/2   (exactly on the limits <<1/2, 2>>)
 AllCompSets == { <<"ns", "ew", "vt">>, <<"vt">>, <<"ns">>, <<"ew", "ns">>, <<"vt", "ew">>, <<"ew">> }
 Pats4 == << Pats[1], Pats[2], Pats[3], Pats[5] >>
+\* windows of two durations in one list: 4 chunks and 8 chunks (a burst or a quiet chunk in the second half of the long one)
+PatsMixed == << <<1, 1, 1, 1>>, <<1, 1, 1, 8>>, <<1, 1, 1, 1, 1, 1, 1, 8>>, <<1, 1, 1, 1, 4, 4, 1, 4>>, <<2, 2, 2, 2, 2, 2, 2, 2>> >>
 Lims == << << <<1, 5>>, <<5, 2>> >>,      \* the defaults 0.2 .. 2.5
            << <<1, 2>>, <<2, 1>> >>,      \* 0.5 .. 2  (ties with pattern 5)
            << <<3, 5>>, <<7, 5>> >>,      \* 0.6 .. 1.4
